@@ -103,47 +103,60 @@ ROOTOF = z3.Function("path_splitext_root", STR, STR)
 # ------------------------------------------------------------------------------------------------
 
 
-class FaultMarker(Exception):
-    """Common base of every injected failure (key of the `raises` tables); adds nothing a handler could name."""
+class FaultMarkerBase(BaseException):
+    """Common base of EVERY injected failure (key of the `raises` tables); adds nothing a handler could name."""
 
 
-def _mk(bases):
-    return type("Fault", bases, {"__module__": __name__})
+FaultMarkerBase.__name__ = "Fault"
+
+
+class FaultMarker(FaultMarkerBase, Exception):
+    """Injected failures that are ordinary errors (Exception subclasses)."""
+
+
+def _mk(bases, catch):
+    return type("Fault", bases, {"__module__": __name__, "_catch": catch})
 
 
 # disjoint exception classes (a handler for one must not be credited with catching the others); they share the display
 # name "Fault" so that obligation names do not depend on which one a path injected.
-FaultPlain = _mk((FaultMarker,))
-FaultOS = _mk((FaultMarker, OSError))
-FaultType = _mk((FaultMarker, TypeError))
-FAULTS = (FaultPlain, FaultOS, FaultType)
+FaultPlain = _mk((FaultMarker,), Exception)
+FaultOS = _mk((FaultMarker, OSError), OSError)
+FaultType = _mk((FaultMarker, TypeError), TypeError)
+# "fails part-way for ANY reason": an abort that is NOT an Exception (KeyboardInterrupt, SystemExit, CancelledError,
+# GeneratorExit) - caught by `except BaseException` / bare `except`, by-passes `except Exception`
+FaultInterrupt = _mk((FaultMarkerBase,), BaseException)
+FAULTS = (FaultPlain, FaultOS, FaultType, FaultInterrupt)
 _DYN = {}
 
 
 def fault_class_for(C):
     """A fault class caught by `except C` (and by nothing narrower)."""
+    if C is BaseException:
+        return FaultInterrupt
     for F in FAULTS:
         if issubclass(F, C):
             return F
     if C not in _DYN:
-        _DYN[C] = _mk((FaultMarker, C))
+        _DYN[C] = _mk((FaultMarker, C) if issubclass(C, Exception) else (FaultMarkerBase, C), C)
     return _DYN[C]
 
 
 def fault_classes_for_handlers(handler_classes):
-    """The classes a failing call is forked over: the three standard ones plus one per exception class named in an
-    `except` clause of the code under verification (so every handler is actually taken on some path)."""
+    """The classes a failing call is forked over: the standard four (Exception / OSError / TypeError / a BaseException that
+    is no Exception) plus one per exception class named in an `except` clause of the code under verification (so every
+    handler is actually taken on some path)."""
     out = list(FAULTS)
     for C in handler_classes:
         if isinstance(C, type) and issubclass(C, BaseException):
-            F = fault_class_for(C) if issubclass(C, Exception) or C is BaseException else None
-            if F is not None and F not in out:
+            F = fault_class_for(C)
+            if F not in out:
                 out.append(F)
     return tuple(out)
 
 
 def is_fault(E):
-    return isinstance(E, type) and issubclass(E, FaultMarker)
+    return isinstance(E, type) and issubclass(E, FaultMarkerBase)
 
 
 class World:
@@ -184,7 +197,7 @@ def raise_fault(ctx, site, why="fault", injected=True):
     (w.faults if injected else w.refusals).append(site)
     cls = w.fault_classes if w.handlers_in_scope else w.fault_classes[:1]
     for c in cls[:-1]:
-        if ctx.branch(ctx.fresh("fault_class_is_" + ("Exception" if c is FaultPlain else c.__mro__[2].__name__), "bool").t):
+        if ctx.branch(ctx.fresh("fault_class_is_" + c._catch.__name__, "bool").t):
             w.fault_class = c
             raise RaiseSig(c(f"{why} at {site}"))
     w.fault_class = cls[-1]
